@@ -439,7 +439,7 @@ def _closing_update(rng, market, last, pt, k):
 def wire_key(market, s):
     """(selection id, handicap) under which the internal runner key s is published."""
     rk = market.get("rk")
-    if rk:
+    if rk and str(s) in rk:
         sid, hc = rk[str(s)]
         return sid, hc
     return s, (market.get("hc") or {}).get(str(s), 0)
